@@ -35,15 +35,48 @@ def xg (e : Engine) (src dst : KPeer) (isIngress : Bool) (proto port : String) :
 theorem xgress_eq_xg (s : EState) (src dst : KPeer) (i : Bool) (proto port : String) :
     xgress s src dst i proto port = xg s.eng src dst i proto port := rfl
 
-/-- the uncached verdict on already resolved peers (everything after the two `getPeer` calls
-and the self check): egress, then ingress -/
-def verdict (e : Engine) (sp dp : KPeer) (proto port : String) : Except Err Bool :=
+/-- the rule walk on already resolved peers: egress, then ingress -/
+def walk (e : Engine) (sp dp : KPeer) (proto port : String) : Except Err Bool :=
   match xg e sp dp false proto port with
   | .error err => .error err
   | .ok eg => if !eg then .ok false else xg e sp dp true proto port
 
-/-- `CheckIfAllowed` after peer resolution and the self check, written with `verdict` -/
-def answer (s : EState) (sp dp : KPeer) (proto port : String) : Except Err Bool × EState :=
+/-- the validation of the query port in `CheckIfAllowed`, before the cache lookup and before any
+rule is examined: a query that names a protocol or a port must carry a port that parses -/
+def badQuery (proto port : String) : Bool := (proto != "" || port != "") && port.toInt?.isNone
+
+/-- the uncached verdict on already resolved peers (everything after the two `getPeer` calls
+and the self check, without the cache lookup): the validation of the query port, then the walk -/
+def verdict (e : Engine) (sp dp : KPeer) (proto port : String) : Except Err Bool :=
+  if badQuery proto port then .error .badPort else walk e sp dp proto port
+
+theorem badQuery_of_toInt {proto port : String} {n : Int} (h : port.toInt? = some n) :
+    badQuery proto port = false := by
+  simp [badQuery, h]
+
+theorem badQuery_of_none {proto port : String} (h : port.toInt? = none)
+    (hq : (proto != "" || port != "") = true) : badQuery proto port = true := by
+  simp only [badQuery, hq, h, Option.isNone_none, Bool.and_self]
+
+/-- a query whose port does not parse is rejected before any rule is examined -/
+theorem verdict_of_badQuery (e : Engine) (sp dp : KPeer) {proto port : String}
+    (h : badQuery proto port = true) : verdict e sp dp proto port = .error .badPort := by
+  simp only [verdict, h, if_true]
+
+/-- on a query that passes the validation the verdict is the walk -/
+theorem verdict_of_goodQuery (e : Engine) (sp dp : KPeer) {proto port : String}
+    (h : badQuery proto port = false) : verdict e sp dp proto port = walk e sp dp proto port := by
+  simp only [verdict, h, Bool.false_eq_true, if_false]
+
+/-- on a port that parses the verdict is the walk: egress, then ingress -/
+theorem verdict_of_toInt (e : Engine) (sp dp : KPeer) {proto port : String} {n : Int}
+    (h : port.toInt? = some n) : verdict e sp dp proto port = walk e sp dp proto port :=
+  verdict_of_goodQuery e sp dp (badQuery_of_toInt h)
+
+/-- `CheckIfAllowed` after the validation of the query port: the cache lookup, then the walk
+(written with `verdict`, which is the walk on a query that passed the validation:
+`verdict_of_goodQuery`) -/
+def cachedAnswer (s : EState) (sp dp : KPeer) (proto port : String) : Except Err Bool × EState :=
   if connKey sp dp proto port = "" then (verdict s.eng sp dp proto port, s)
   else
     match s.cache.items.find? (·.1 == connKey sp dp proto port) with
@@ -54,6 +87,22 @@ def answer (s : EState) (sp dp : KPeer) (proto port : String) : Except Err Bool 
       match verdict s.eng sp dp proto port with
       | .error e => (.error e, s)
       | .ok v => (.ok v, { s with cache := s.cache.add (connKey sp dp proto port) v })
+
+/-- `CheckIfAllowed` after peer resolution and the self check: the validation of the query port
+(a rejected query touches neither the cache nor its LRU order), then the lookup, then the walk -/
+def answer (s : EState) (sp dp : KPeer) (proto port : String) : Except Err Bool × EState :=
+  if badQuery proto port then (.error .badPort, s) else s.cachedAnswer sp dp proto port
+
+/-- a query whose port does not pass the validation is rejected and leaves the state as it is,
+whatever is cached and whatever the policies -/
+theorem answer_badQuery (s : EState) (sp dp : KPeer) {proto port : String}
+    (hb : badQuery proto port = true) : s.answer sp dp proto port = (.error .badPort, s) := by
+  simp only [answer, hb, if_true]
+
+theorem answer_goodQuery (s : EState) (sp dp : KPeer) {proto port : String}
+    (hb : badQuery proto port = false) :
+    s.answer sp dp proto port = s.cachedAnswer sp dp proto port := by
+  simp only [answer, hb, Bool.false_eq_true, if_false]
 
 theorem checkIfAllowed_eq (s : EState) (src dst proto port : String) :
     s.checkIfAllowed src dst proto port =
@@ -75,22 +124,19 @@ theorem checkIfAllowed_eq (s : EState) (src dst proto port : String) :
       by_cases hs : Engine.isPodToItself sp dp = true
       · simp [hs]
       · simp only [hs, if_false, Bool.false_eq_true]
-        unfold answer
-        by_cases hk : connKey sp dp proto port = ""
-        · simp only [hk, beq_self_eq_true, if_true, cacheAdd, verdict, xgress_eq_xg]
-          cases hx : xg s.eng sp dp false proto port with
-          | error e => rfl
-          | ok eg =>
-            cases eg
-            · rfl
-            · simp only [Bool.not_true, Bool.false_eq_true, if_false]
-              cases hy : xg s.eng sp dp true proto port <;> rfl
-        · have hk' : (connKey sp dp proto port == "") = false := by simpa using hk
-          simp only [hk', if_false, Bool.false_eq_true, hk, LRU.get]
-          cases hf : s.cache.items.find? (·.1 == connKey sp dp proto port) with
-          | some kv => rfl
-          | none =>
-            simp only [cacheAdd, hk', verdict, xgress_eq_xg, Bool.false_eq_true, if_false]
+        by_cases hb : badQuery proto port = true
+        case pos =>
+          have hb' : ((proto != "" || port != "") && port.toInt?.isNone) = true := hb
+          rw [if_pos hb', answer_badQuery _ _ _ hb]
+        case neg =>
+          have hb' : ¬ ((proto != "" || port != "") && port.toInt?.isNone) = true := hb
+          have hg : badQuery proto port = false := by simpa using hb
+          rw [if_neg hb', answer_goodQuery _ _ _ hg]
+          unfold cachedAnswer
+          rw [verdict_of_goodQuery _ _ _ hg]
+          by_cases hk : connKey sp dp proto port = ""
+          · simp only [hk, beq_self_eq_true, if_true, cacheAdd, xgress_eq_xg]
+            unfold walk
             cases hx : xg s.eng sp dp false proto port with
             | error e => rfl
             | ok eg =>
@@ -98,16 +144,37 @@ theorem checkIfAllowed_eq (s : EState) (src dst proto port : String) :
               · rfl
               · simp only [Bool.not_true, Bool.false_eq_true, if_false]
                 cases hy : xg s.eng sp dp true proto port <;> rfl
+          · have hk' : (connKey sp dp proto port == "") = false := by simpa using hk
+            simp only [hk', if_false, Bool.false_eq_true, hk, LRU.get]
+            cases hf : s.cache.items.find? (·.1 == connKey sp dp proto port) with
+            | some kv => rfl
+            | none =>
+              simp only [cacheAdd, hk', xgress_eq_xg, Bool.false_eq_true, if_false]
+              unfold walk
+              cases hx : xg s.eng sp dp false proto port with
+              | error e => rfl
+              | ok eg =>
+                cases eg
+                · rfl
+                · simp only [Bool.not_true, Bool.false_eq_true, if_false]
+                  cases hy : xg s.eng sp dp true proto port <;> rfl
 
 /-- the verdict of `answer` when nothing is cached -/
-theorem answer_nil (s : EState) (sp dp : KPeer) (proto port : String) (c : Nat) :
-    (({ s with cache := { items := [], cap := c } } : EState).answer sp dp proto port).1 =
+theorem cachedAnswer_nil (s : EState) (sp dp : KPeer) (proto port : String) (c : Nat) :
+    (({ s with cache := { items := [], cap := c } } : EState).cachedAnswer sp dp proto port).1 =
       verdict s.eng sp dp proto port := by
-  unfold answer
+  unfold cachedAnswer
   by_cases hk : connKey sp dp proto port = ""
   · simp [hk]
   · simp only [hk, if_false, List.find?_nil]
     cases verdict s.eng sp dp proto port <;> rfl
+
+theorem answer_nil (s : EState) (sp dp : KPeer) (proto port : String) (c : Nat) :
+    (({ s with cache := { items := [], cap := c } } : EState).answer sp dp proto port).1 =
+      verdict s.eng sp dp proto port := by
+  cases hb : badQuery proto port with
+  | true => rw [answer_badQuery _ _ _ hb, verdict_of_badQuery _ _ _ hb]
+  | false => rw [answer_goodQuery _ _ _ hb]; exact cachedAnswer_nil s sp dp proto port c
 
 theorem uncached_eq (s : EState) (src dst proto port : String) :
     s.uncached src dst proto port =
@@ -357,7 +424,7 @@ theorem EState.xg_congr (h1 : PodSim p p') (h2 : PodSim q q') (e : Engine) (i : 
 /-- (b) the verdict for two pod peers reads each pod only through namespace, labels and ports -/
 theorem EState.verdict_congr (h1 : PodSim p p') (h2 : PodSim q q') (e : Engine) (proto port : String) :
     verdict e (.pod p n) (.pod q m) proto port = verdict e (.pod p' n) (.pod q' m) proto port := by
-  simp only [verdict, xg_congr n m h1 h2]
+  simp only [verdict, walk, xg_congr n m h1 h2]
 
 end Congr
 
@@ -371,7 +438,7 @@ theorem EState.verdict_eng_congr {e e' : Engine} (h1 : e.netpols = e'.netpols) (
     intro i; unfold byNetpols Engine.policiesSelecting; rw [h1]
   have a3 : ∀ i, byBANP e sp dp i proto port = byBANP e' sp dp i proto port := by
     intro i; unfold byBANP; rw [h3]
-  simp only [verdict, xg, xgress, a1, a2, a3]
+  simp only [verdict, walk, xg, xgress, a1, a2, a3]
 
 
 /-! ### the cache invariant -/
@@ -471,10 +538,10 @@ theorem Inv.frame {s s' : EState} (hi : Inv P Q s)
 
 
 /-- under the invariant the (possibly cached) answer is the uncached verdict -/
-theorem answer_transparent {s : EState} (hi : Inv P Q s) {sp dp : KPeer} (hs : Resolved s sp)
+theorem cachedAnswer_transparent {s : EState} (hi : Inv P Q s) {sp dp : KPeer} (hs : Resolved s sp)
     (hd : Resolved s dp) {proto port : String} (hq : Q proto port) :
-    (s.answer sp dp proto port).1 = verdict s.eng sp dp proto port := by
-  unfold answer
+    (s.cachedAnswer sp dp proto port).1 = verdict s.eng sp dp proto port := by
+  unfold cachedAnswer
   by_cases hk : connKey sp dp proto port = ""
   · rw [if_pos hk]
   · rw [if_neg hk]
@@ -495,6 +562,13 @@ theorem answer_transparent {s : EState} (hi : Inv P Q s) {sp dp : KPeer} (hs : R
           exact (hi.cache kv hmem p q nS nD proto port (hi.pods p hs.1) (hi.pods q hd.1) hpo hqo hq
             hs.2 hd.2 (by rw [hk1, hkey])).symm
 
+theorem answer_transparent {s : EState} (hi : Inv P Q s) {sp dp : KPeer} (hs : Resolved s sp)
+    (hd : Resolved s dp) {proto port : String} (hq : Q proto port) :
+    (s.answer sp dp proto port).1 = verdict s.eng sp dp proto port := by
+  cases hb : badQuery proto port with
+  | true => rw [answer_badQuery _ _ _ hb, verdict_of_badQuery _ _ _ hb]
+  | false => rw [answer_goodQuery _ _ _ hb]; exact cachedAnswer_transparent hi hs hd hq
+
 theorem mem_lru_add {c : LRU} {k : String} {v : Bool} {kv : String × Bool}
     (h : kv ∈ (c.add k v).items) : kv = (k, v) ∨ kv ∈ c.items := by
   simp only [LRU.add] at h
@@ -504,10 +578,10 @@ theorem mem_lru_add {c : LRU} {k : String} {v : Bool} {kv : String × Bool}
 
 /-- a query keeps the invariant: a hit only reorders, a miss stores the verdict just computed,
 which by `KeyFaithful` is the verdict of every query in play with the same key -/
-theorem answer_inv (hf : KeyFaithful P Q) {s : EState} (hi : Inv P Q s) {sp dp : KPeer}
+theorem cachedAnswer_inv (hf : KeyFaithful P Q) {s : EState} (hi : Inv P Q s) {sp dp : KPeer}
     (hs : Resolved s sp) (hd : Resolved s dp) {proto port : String} (hq : Q proto port) :
-    Inv P Q (s.answer sp dp proto port).2 := by
-  unfold answer
+    Inv P Q (s.cachedAnswer sp dp proto port).2 := by
+  unfold cachedAnswer
   by_cases hk : connKey sp dp proto port = ""
   · rw [if_pos hk]; exact hi
   · rw [if_neg hk]
@@ -551,6 +625,12 @@ theorem answer_inv (hf : KeyFaithful P Q) {s : EState} (hi : Inv P Q s) {sp dp :
               rw [verdict_congr _ _ h1 h2, hv]
         · exact hi.cache kv h sp' dp' nS' nD' pr po hsp' hdp' hso' hdo' hq' hnS' hnD' hk'
 
+theorem answer_inv (hf : KeyFaithful P Q) {s : EState} (hi : Inv P Q s) {sp dp : KPeer}
+    (hs : Resolved s sp) (hd : Resolved s dp) {proto port : String} (hq : Q proto port) :
+    Inv P Q (s.answer sp dp proto port).2 := by
+  cases hb : badQuery proto port with
+  | true => rw [answer_badQuery _ _ _ hb]; exact hi
+  | false => rw [answer_goodQuery _ _ _ hb]; exact cachedAnswer_inv hf hi hs hd hq
 
 /-! ### updates -/
 
@@ -935,9 +1015,12 @@ theorem checkIfAllowed_eng (s : EState) (src dst proto port : String) :
       · unfold answer
         split
         · rfl
-        · split
+        · unfold cachedAnswer
+          split
           · rfl
-          · split <;> rfl
+          · split
+            · rfl
+            · split <;> rfl
 
 /-- the admin-policy bookkeeping of the engine: the sorted slice and the name map -/
 def _root_.Netpol.Engine.adm (e : Engine) : List ANP × List String := (e.anps, e.anpNames)
@@ -1063,9 +1146,12 @@ theorem step_cap (s : EState) (op : HOp) : (s.step op).1.cache.cap = s.cache.cap
         · unfold answer
           split
           · rfl
-          · split
+          · unfold cachedAnswer
+            split
             · rfl
-            · split <;> rfl
+            · split
+              · rfl
+              · split <;> rfl
   | del o =>
     cases o with
     | pod p =>
@@ -1366,6 +1452,192 @@ theorem EState.uncacheable_transparent (s : EState) (src dst proto port : String
       simp only
       split
       · rfl
-      · simp only [answer, h sp dp h1 h2, if_true]
+      · cases hb : badQuery proto port with
+        | true => rw [answer_badQuery _ _ _ hb, verdict_of_badQuery _ _ _ hb]
+        | false => simp only [answer_goodQuery _ _ _ hb, cachedAnswer, h sp dp h1 h2, if_true]
+
+/-! ### the validation of the query port
+
+`CheckIfAllowed` rejects a query that names a protocol or a port and whose port does not parse
+right after the self check: before the cache lookup and before any rule is examined
+(`EState.badQuery`, first test of `EState.answer`; `EState.verdict` is the same without cache). -/
+
+namespace EState
+
+/-- `CheckIfAllowed` on such a query: resolved peers, not a pod to itself — in any state, whatever
+is cached -/
+theorem checkIfAllowed_badQuery (s : EState) (src dst : String) {sp dp : KPeer} {proto port : String}
+    (hs : getPeer s.eng src = .ok sp) (hd : getPeer s.eng dst = .ok dp)
+    (hself : Engine.isPodToItself sp dp = false) (hb : badQuery proto port = true) :
+    s.checkIfAllowed src dst proto port = (.error .badPort, s) := by
+  rw [checkIfAllowed_eq, hs, hd]
+  simp only [hself, Bool.false_eq_true, if_false]
+  exact answer_badQuery s sp dp hb
+
+/-- `CheckIfAllowed` on such a query, in any state: `badPort` unless the peers do not resolve or
+are one pod; the state is left as it is -/
+theorem checkIfAllowed_badQuery_eq (s : EState) (src dst : String) {proto port : String}
+    (hb : badQuery proto port = true) :
+    s.checkIfAllowed src dst proto port =
+      (match getPeer s.eng src with
+      | .error e => .error e
+      | .ok sp =>
+        match getPeer s.eng dst with
+        | .error e => .error e
+        | .ok dp => if Engine.isPodToItself sp dp then .ok true else .error .badPort, s) := by
+  rw [checkIfAllowed_eq]
+  cases getPeer s.eng src with
+  | error e => rfl
+  | ok sp =>
+    cases getPeer s.eng dst with
+    | error e => rfl
+    | ok dp =>
+      simp only [answer_badQuery _ _ _ hb]
+      split <;> rfl
+
+/-- the uncached answer to such a query: `badPort` unless the peers do not resolve or are one pod -/
+theorem uncached_badQuery (s : EState) (src dst : String) {proto port : String}
+    (hb : badQuery proto port = true) :
+    s.uncached src dst proto port =
+      match getPeer s.eng src with
+      | .error e => .error e
+      | .ok sp =>
+        match getPeer s.eng dst with
+        | .error e => .error e
+        | .ok dp => if Engine.isPodToItself sp dp then .ok true else .error .badPort := by
+  rw [uncached_eq]
+  cases getPeer s.eng src with
+  | error e => rfl
+  | ok sp =>
+    cases getPeer s.eng dst with
+    | error e => rfl
+    | ok dp => simp only [verdict_of_badQuery _ _ _ hb]
+
+/-- the key was formed for a query that passed the validation of the port -/
+def StoredKey (k : String) : Prop :=
+  ∃ sp dp proto port, k = connKey sp dp proto port ∧ badQuery proto port = false
+
+/-- every cached verdict was stored for a query that passed the validation -/
+def CacheValidated (s : EState) : Prop := ∀ kv ∈ s.cache.items, StoredKey kv.1
+
+theorem CacheValidated.of_sub {s s' : EState} (h : s.CacheValidated)
+    (hsub : ∀ kv ∈ s'.cache.items, kv ∈ s.cache.items) : s'.CacheValidated :=
+  fun kv hkv => h kv (hsub kv hkv)
+
+theorem CacheValidated.of_empty {s : EState} (h : s.cache.items = []) : s.CacheValidated := by
+  intro kv hkv; rw [h] at hkv; cases hkv
+
+theorem cachedAnswer_validated {s : EState} (h : s.CacheValidated) (sp dp : KPeer) (proto port : String) :
+    (s.cachedAnswer sp dp proto port).2.CacheValidated := by
+  unfold cachedAnswer
+  by_cases hk : connKey sp dp proto port = ""
+  · rw [if_pos hk]; exact h
+  · rw [if_neg hk]
+    cases hfind : s.cache.items.find? (·.1 == connKey sp dp proto port) with
+    | some kv =>
+      refine h.of_sub ?_
+      intro kv' hkv'
+      rcases List.mem_cons.mp hkv' with h' | h'
+      · exact h' ▸ List.mem_of_find?_eq_some hfind
+      · exact (List.mem_filter.mp h').1
+    | none =>
+      simp only
+      cases hv : verdict s.eng sp dp proto port with
+      | error e => exact h
+      | ok v =>
+        intro kv hkv
+        rcases mem_lru_add hkv with h' | h'
+        · subst h'
+          refine ⟨sp, dp, proto, port, rfl, ?_⟩
+          cases hb : badQuery proto port with
+          | false => rfl
+          | true => rw [verdict_of_badQuery _ _ _ hb] at hv; cases hv
+        · exact h kv h'
+
+theorem answer_validated {s : EState} (h : s.CacheValidated) (sp dp : KPeer) (proto port : String) :
+    (s.answer sp dp proto port).2.CacheValidated := by
+  cases hb : badQuery proto port with
+  | true => rw [answer_badQuery _ _ _ hb]; exact h
+  | false => rw [answer_goodQuery _ _ _ hb]; exact cachedAnswer_validated h sp dp proto port
+
+theorem checkIfAllowed_validated {s : EState} (h : s.CacheValidated) (src dst proto port : String) :
+    (s.checkIfAllowed src dst proto port).2.CacheValidated := by
+  rw [checkIfAllowed_eq]
+  cases getPeer s.eng src with
+  | error e => exact h
+  | ok sp =>
+    cases getPeer s.eng dst with
+    | error e => exact h
+    | ok dp =>
+      simp only
+      split
+      · exact h
+      · exact answer_validated h sp dp proto port
+
+theorem step_validated {s : EState} (h : s.CacheValidated) (op : HOp) : (s.step op).1.CacheValidated := by
+  cases op with
+  | clear => exact CacheValidated.of_empty rfl
+  | q a b pr po => exact checkIfAllowed_validated h a b pr po
+  | del o =>
+    cases o with
+    | pod p =>
+      simp only [step, delete]
+      cases s.eng.findPod (Engine.podKey p) with
+      | none => exact h
+      | some cur =>
+        simp only [cacheDeletePod]
+        split
+        · exact h.of_sub (fun kv hkv => (List.mem_filter.mp hkv).1)
+        · exact h
+    | banp b =>
+      simp only [step, delete]
+      split
+      · exact h
+      · split
+        · exact CacheValidated.of_empty rfl
+        · exact h
+    | ns n => exact CacheValidated.of_empty rfl
+    | np x => exact CacheValidated.of_empty rfl
+    | anp x => exact CacheValidated.of_empty rfl
+    | wl w => exact h
+    | svc x => exact h
+    | ing x => exact h
+    | route x => exact h
+  | ins o =>
+    cases o with
+    | wl w =>
+      refine h.of_sub ?_
+      intro kv hkv
+      have : (s.step (.ins (.wl w))).1.cache = s.cache := (addPods_eng s _).2
+      rw [this] at hkv
+      exact hkv
+    | pod p => simp only [step, insert]; split <;> exact h
+    | np x =>
+      simp only [step, insert]
+      cases s.eng.insertNetpol x with
+      | error e => exact h
+      | ok e => exact CacheValidated.of_empty rfl
+    | anp x =>
+      simp only [step, insert]
+      cases s.eng.insertANP x with
+      | error e => exact h
+      | ok e => exact CacheValidated.of_empty rfl
+    | banp x =>
+      simp only [step, insert]
+      cases s.eng.insertBANP x with
+      | error e => exact h
+      | ok e => exact CacheValidated.of_empty rfl
+    | ns n => exact CacheValidated.of_empty rfl
+    | svc x => exact h
+    | ing x => exact h
+    | route x => exact h
+
+theorem run_validated {s : EState} (h : s.CacheValidated) (ops : List HOp) :
+    (s.run ops).CacheValidated := by
+  induction ops generalizing s with
+  | nil => exact h
+  | cons op rest ih => exact ih (step_validated h op)
+
+end EState
 
 end Netpol
